@@ -220,6 +220,51 @@ def run(ck, facts, tier):
                          detail=paths.fmt_paths(got)[:500], sample="solve(A^T A, A^T b)" if flag == "true" else "solve(A, b)")
             except Unsupported as e:
                 ck.fail(r3, key, "rule could not be established (%s)" % e, where)
+    # ---------------- R13.7 the product helpers the solver is built from
+    r7 = ck.rule("R13.7", "the vector / matrix products: inner(a, b) = sum over the zipped pair of a_i * b_i (every element, in order); matrix x vector = [inner(row_i, b) for "
+                          "every row]; matrix x matrix = [inner(row_i, col_j)] over rows(a) x cols(b), row-major, in shape (rows(a), cols(b)); outer(a, b) = [a_i * b_j] in shape "
+                          "(|a|, |b|); the float/number crossovers are the same with the float operand first in each inner product", floor=10)
+    A_, B_ = Sym("param", "a"), Sym("param", "b")
+
+    def seq_of(p_):
+        return cel.Seq(p_, lambda idx, p_=p_: Sym("at", vkey(p_), idx.key()))
+    at_ = lambda p_, ix: Sym("at", vkey(p_), Poly.atom(ix).key())
+    lane = lambda p_, ax, ix: Sym("lane", vkey(p_), ax, Poly.atom(ix).key())
+    axis = lambda p_, ax: Sym("axis", vkey(p_), ax)
+    len_of = lambda p_, ax: Sym("m", "len_of", vkey(p_), (vkey(Sym("ctor", "Axis", Poly.const(ax))),))
+    hk7 = {LD + "dmul11_": lambda ev, vals, e: Sym("inner", *[vkey(v) for v in vals]), LF + "fdmul11_": lambda ev, vals, e: Sym("inner", *[vkey(v) for v in vals])}
+
+    def returning(v):
+        vs = [x for c, x in paths.flatten(v) if not (isinstance(x, Sym) and x.tag[:1] == ("diverges",))]          # the dimension asserts may abort: the returning path is judged
+        return vs[0] if len(vs) == 1 else None
+    cases = []
+    for fn in (LD + "dmul11_", LF + "fdmul11_"):
+        want = Sym("m", "sum", vkey(Sym("zip", vkey(A_), vkey(B_))), vkey(Sym("op", "Mul", vkey(at_(A_, "i")), vkey(at_(B_, "i")))), ())
+        cases.append((fn, [seq_of(A_), seq_of(B_)], {}, want, "sum(a_i * b_i over zip(a, b))"))
+    for fn, first_row in ((LD + "dmul21_", True), (LF + "fdmul21_", True), (LF + "dfmul21_", False)):
+        inner = Sym("inner", vkey(lane(A_, 0, "i")), vkey(B_)) if first_row else Sym("inner", vkey(B_), vkey(lane(A_, 0, "i")))
+        cases.append((fn, [A_, B_], hk7, cel.Coll(cel.Seq(axis(A_, 0), lambda idx, inner=inner: inner)), "[inner(row_i, b) for every row of a]"))
+    for fn, first_row in ((LD + "dmul22_", True), (LF + "fdmul22_", True), (LF + "dfmul22_", False)):
+        inner = Sym("inner", vkey(lane(A_, 0, "i")), vkey(lane(B_, 1, "j"))) if first_row else Sym("inner", vkey(lane(B_, 1, "j")), vkey(lane(A_, 0, "i")))
+        coll = cel.Coll(cel.Seq(Sym("product", vkey(axis(A_, 0)), vkey(axis(B_, 1))), lambda idx, inner=inner: inner))
+        cases.append((fn, [A_, B_], hk7, Sym("reshaped", vkey(coll), vkey(Tup([len_of(A_, 0), len_of(B_, 1)]))), "[inner(row_i, col_j)] row-major in shape (rows(a), cols(b))"))
+    elem_hook = {"@elem": lambda cont: (lambda idx, cont=cont: Sym("at", vkey(cont), idx.key())) if vkey(cont) in (vkey(A_), vkey(B_)) else None}
+    for fn in (LD + "douter11_", LF + "fouter11_"):
+        coll = cel.Coll(cel.Seq(Sym("product", vkey(A_), vkey(B_)), lambda idx: Sym("op", "Mul", vkey(at_(A_, "i")), vkey(at_(B_, "j")))))
+        la, lb = Poly.atom(("len", vkey(A_), None)), Poly.atom(("len", vkey(B_), None))
+        cases.append((fn, [A_, B_], elem_hook, Sym("reshaped", vkey(coll), vkey(Tup([la, lb]))), "[a_i * b_j] row-major in shape (|a|, |b|)"))
+    for fn, args, hooks_, want, what in cases:
+        r = facts.fn(fn)
+        nm = fn.rsplit("::", 1)[-1]
+        if r is None:
+            ck.fail(r7, nm, "helper not found")
+            continue
+        where = "%s:%d" % (r["file"], r["line"])
+        try:
+            got = returning(cel.Ev(facts, hooks=hooks_).apply_fn(fn, args, 0))
+            ck.check(r7, nm, got is not None and vkey(got) == vkey(want), "%s is not %s: %s" % (nm, what, cel.vfmt(got)[:300] if got is not None else "no single returning path"), where, sample=what)
+        except Unsupported as e:
+            ck.fail(r7, nm, "rule could not be established (%s)" % e, where)
     # ---------------- R13.6 Python-facing wrappers
     r6 = ck.rule("R13.6", "the Python-facing solver entry points hand their data to the core solver unchanged: a (the flat row-major list reshaped to "
                           "(len(a)/len(b), len(b)), or the float matrix as given), b and allow_lsq go to dsolve/fdsolve as they came and the solver's result is returned as it is", floor=4)
